@@ -133,6 +133,12 @@ def run(rep, tier, seed):
             lines += ["set %s %s" % kv for kv in combo.items()]
             cs = {"id": "c02-%s-%d" % (mode, ci), "inputrc": "\n".join(lines) + "\n", "w": rng.choice([80, 20, 200]), "h": 24,
                   "prompt": rng.choice(["> ", ""]), "sessions": [], "wrap": "none"}
+            if ci % 4 == 2:
+                # suggestions from the history are shown behind what is typed (history-autosuggest): stored lines that START with
+                # texts of this case, so that a suggestion is on the screen while they are typed; what is typed is what comes back
+                # (every accepted text is recorded too: later texts of the case find the earlier ones)
+                cs["inputrc"] += "set history-autosuggest on\n"
+                cs["sources"] = [{"name": "main", "kind": "mem", "lines": [t + rng.choice([" and more", "xyz", " 中文", "!"]) for t in chunk[:12] if t.strip()]}]
             if ci % 3 == 1:
                 # the Shell has been used before: an earlier call completed a word (candidates with removable suffixes, hints,
                 # a menu) and was accepted or aborted; what it left behind must not touch what is typed afterwards
